@@ -9,3 +9,7 @@ pub assume_specification<T: Ord>[ std::cmp::min::<T> ](a: T, b: T) -> (r: T)
     ensures
         T::obeys_cmp_spec() ==> (r == if a.cmp_spec(&b) == std::cmp::Ordering::Greater { b } else { a }),
 ;
+
+// ASSUMED (std docs, `usize::abs_diff`): "Computes the absolute difference between self and other."
+pub assume_specification[ usize::abs_diff ](a: usize, b: usize) -> (r: usize)
+    ensures r == (if a >= b { a - b } else { b - a });
